@@ -259,8 +259,9 @@ DisputePenalised(pre, e) ==
          \* (twin execution on a checkpoint): the undeliverable share is burnt, not kept
          /\ ("twinCharged" \in DOMAIN e) => BEq(BAdd(BAdd(burnt, paid), BSub(M2.debt, M1.debt)), e.twinCharged)
          /\ \A a \in {e.tr[j][2] : j \in {k \in Idx(e.tr) : e.tr[k][1] = e.m}} : a \in {"f099", "rep"}
+         \* (the sectors of the disputed proof may have lost their power already -- declared faulty or terminated since
+         \* the proof -- so only "no power is gained" can be demanded of the sets; that the claim follows the sets is C02)
          /\ ActiveSet(M2) \cap DlAll(M2, e.dl + 1) \subseteq ActiveSet(M1) \cap DlAll(M1, e.dl + 1)
-         /\ ActiveSet(M2) \cap DlAll(M2, e.dl + 1) # ActiveSet(M1) \cap DlAll(M1, e.dl + 1)
 \* early termination: each sector whose termination was processed in this step paid at least 2% of its pledge
 TerminatedNow(pre, e) ==
   LET M1 == MinerByName(pre, e.m) M2 == MinerByName(e.st, e.m)
